@@ -180,7 +180,8 @@ Definition nodup_ok (cf : finder) : Prop := forall t s, dget t (dbt cf) = Some s
 Definition finder_ok (cf : finder) : Prop :=
   (forall b l, dget b (tfb cf) = Some l -> kn (pl cf) b /\ ppath (pl cf) (kn (pl cf)) b l) /\
   dbt_ok cf /\ nodup_ok cf /\
-  (forall x, kn (pl cf) x -> exists b l, dget b (tfb cf) = Some l /\ In x l).
+  (forall x, kn (pl cf) x -> exists b l, dget b (tfb cf) = Some l /\ In x l) /\
+  NoDup (map fst (tfb cf)).
 (* chains in a parent map, listed from the anchor outward *)
 Inductive pchain (p : dict hash) : hash -> list hash -> Prop :=
 | pc_nil : forall a, pchain p a []
